@@ -1,4 +1,5 @@
 import Verif.Lemmas.C01
+import Verif.Lemmas.C01Sem
 /-! # C01 — Log queries return exactly the matching lines
 
 Theorems over `LogQL.entries` / `LogQL.specEntries` (model of `Engine.selectLogs` +
@@ -60,5 +61,54 @@ theorem C01_lineFilter_semantics (env : Env) (ts : Int) (op : StrOp) (v : Bytes)
             | .re => env.reSearch re a.line | .nre => !env.reSearch re a.line)
        then some a else none) := by
   cases op <;> simp [Stage.apply]
+
+/-! ## What "matching" denotes (hand-added)
+
+`Regex.Matches` / `Regex.Contains` (Verif/Env/RegexSem.lean) is the textbook language of a regular
+expression: no backtracking, fuel, priorities or captures.  The executable matcher of `ExecEnv.env` —
+the one the correspondence runs against Go's `regexp` — is proved to decide exactly that relation
+(Lemmas/RegexSem.lean: soundness for any fuel, completeness under the fuel the model supplies), so
+"the matching lines" of a `|~` filter are the lines containing a word of the language. -/
+
+/-- the executable regex matcher decides language membership (anchored form, used by `=~`) -/
+theorem C01_regex_fullMatch_is_language (r : Regex.Re) (s : List Nat) :
+    Regex.fullMatch r s = true ↔ Regex.Matches r 0 s [] := RegexSem.fullMatch_iff r s
+
+/-- …and containment of a match (unanchored form, used by `|~`) -/
+theorem C01_regex_search_is_language (r : Regex.Re) (s : List Nat) :
+    Regex.search r s = true ↔ Regex.Contains r s := RegexSem.search_iff r s
+
+/-- **C01 (`|~`)**: the stage keeps exactly the lines that contain a match of the expression -/
+theorem C01_lineFilter_re_keeps_language (ts : Int) (v : Bytes) (re : Regex.Re) (seen : Seen) (a : Acc) :
+    (Stage.apply ExecEnv.env ts (.lineFilter .re v re) seen a).1 = some a ↔ Regex.Contains re a.line :=
+  C01Sem.lineFilter_re ts v re seen a
+
+/-- **C01 (`!~`)**: …and `!~` exactly the others -/
+theorem C01_lineFilter_nre_keeps_complement (ts : Int) (v : Bytes) (re : Regex.Re) (seen : Seen) (a : Acc) :
+    (Stage.apply ExecEnv.env ts (.lineFilter .nre v re) seen a).1 = some a ↔ ¬ Regex.Contains re a.line :=
+  C01Sem.lineFilter_nre ts v re seen a
+
+/-- **C01 (`|=`)**: kept iff the text occurs in the line (any environment) -/
+theorem C01_lineFilter_eq_keeps_substring (env : Env) (ts : Int) (v : Bytes) (re : Regex.Re) (seen : Seen) (a : Acc) :
+    (Stage.apply env ts (.lineFilter .eq v re) seen a).1 = some a ↔ ∃ pre post, a.line = pre ++ v ++ post :=
+  C01Sem.lineFilter_eq env ts v re seen a
+
+/-- **C01 (`!=`)** -/
+theorem C01_lineFilter_ne_keeps_complement (env : Env) (ts : Int) (v : Bytes) (re : Regex.Re) (seen : Seen) (a : Acc) :
+    (Stage.apply env ts (.lineFilter .ne v re) seen a).1 = some a ↔ ¬ ∃ pre post, a.line = pre ++ v ++ post :=
+  C01Sem.lineFilter_ne env ts v re seen a
+
+/-- **C01 (selector / label `=~`)**: anchored — the whole value is a word of the language -/
+theorem C01_matcher_re_is_language (m : StrMatcher) (h : m.op = .re) (v : Bytes) :
+    m.matchValue ExecEnv.env v = true ↔ Regex.Matches m.re 0 v [] := C01Sem.matcher_re m h v
+
+theorem C01_matcher_nre_is_complement (m : StrMatcher) (h : m.op = .nre) (v : Bytes) :
+    m.matchValue ExecEnv.env v = true ↔ ¬ Regex.Matches m.re 0 v [] := C01Sem.matcher_nre m h v
+
+/-- non-vacuity: `(a|b)*c` matches "abac"; `^b` does not occur in "ab" -/
+example : Regex.fullMatch (.seq (.star (.alt (.chr 97) (.chr 98))) (.chr 99)) [97, 98, 97, 99] = true := by decide
+example : ¬ Regex.Contains (.seq .bol (.chr 98)) [97, 98] := by
+  rw [← C01_regex_search_is_language]; decide
+
 
 end LogQL.C01
